@@ -6,6 +6,7 @@
 #define _GNU_SOURCE
 #include "sim.h"
 #include "simfd.h"
+#include "simfs.h"
 #include "vobj.h"
 #include <libast/array.h>
 #include <libast/linked_list.h>
@@ -268,12 +269,73 @@ static spif_obj_t make(int k, const op_t *o)
     return r;
 }
 
+/* second generation of mutators (plan argument 4; added after measuring which lines of the libraries the programs executed, see
+   tools/coverage.py): positions counted from the end, negative counts, the middle of lists, the rarer regexp flags.  Returns 0 where the
+   kind has no such variant (the ordinary mutator runs instead). */
+static int mutate_ext(spif_obj_t x, int k, long how, long ext, char *t, const op_t *o)
+{
+    switch (k) {
+    case K_STR: {
+        spif_str_t s = SPIF_STR(x);
+        long L = s->len, neg = -(1 + (L ? how % L : 0));
+        switch (ext % 4) {
+        case 0: spif_str_splice_from_ptr(s, (spif_stridx_t)neg, (spif_stridx_t)((how / 7) % 3), (spif_charptr_t)t); break;
+        case 1: spif_str_splice_from_ptr(s, (spif_stridx_t)(how % (L + 1)), (spif_stridx_t)(-((how / 7) % 3)), (spif_charptr_t)t); break;
+        case 2: { spif_str_t tmp = spif_str_new_from_ptr((spif_charptr_t)t); spif_str_splice(s, (spif_stridx_t)neg, (spif_stridx_t)(-((how / 7) % 2)), tmp); spif_str_del(tmp); break; }
+        default: { spif_str_t tmp = spif_str_new(); spif_str_append(s, tmp); spif_str_prepend(s, tmp); spif_str_append(tmp, s); spif_str_del(tmp); break; }      /* to and from a string without a buffer */
+        }
+        return 1;
+    }
+    case K_USTR: {
+        spif_ustr_t s = (spif_ustr_t)x;
+        long L = s->len, neg = -(1 + (L ? how % L : 0));
+        switch (ext % 3) {
+        case 0: spif_ustr_splice_from_ptr(s, (spif_ustridx_t)neg, (spif_ustridx_t)((how / 7) % 3), (spif_charptr_t)t); break;
+        case 1: spif_ustr_splice_from_ptr(s, (spif_ustridx_t)(how % (L + 1)), (spif_ustridx_t)(-((how / 7) % 3)), (spif_charptr_t)t); break;
+        default: { spif_ustr_t tmp = spif_ustr_new_from_ptr((spif_charptr_t)t); spif_ustr_splice(s, (spif_ustridx_t)neg, (spif_ustridx_t)(-((how / 7) % 2)), tmp); spif_ustr_append(s, tmp); spif_ustr_prepend(s, tmp); spif_ustr_del(tmp); break; }
+        }
+        return 1;
+    }
+    case K_MBUFF: {
+        spif_mbuff_t m = SPIF_MBUFF(x);
+        long L = m->len, neg = -(1 + (L ? how % L : 0));
+        switch (ext % 4) {
+        case 0: spif_mbuff_splice_from_ptr(m, (spif_memidx_t)neg, (spif_memidx_t)((how / 7) % 3), (spif_byteptr_t)o->s, (spif_memidx_t)o->slen); break;
+        case 1: spif_mbuff_splice_from_ptr(m, (spif_memidx_t)(how % (L + 1)), (spif_memidx_t)(-((how / 7) % 3)), (spif_byteptr_t)o->s, (spif_memidx_t)o->slen); break;
+        case 2: { spif_mbuff_t tmp = spif_mbuff_new_from_ptr((spif_byteptr_t)o->s, (spif_memidx_t)o->slen); if (tmp) { spif_mbuff_splice(m, (spif_memidx_t)neg, (spif_memidx_t)(-((how / 7) % 2)), tmp); spif_mbuff_prepend(m, tmp); spif_mbuff_del(tmp); } break; }
+        default: spif_mbuff_splice_from_ptr(m, (spif_memidx_t)(how % (L + 1)), 1, (spif_byteptr_t)NULL, 0); break;      /* nothing put in: a plain removal */
+        }
+        return 1;
+    }
+    case K_REGEXP: {
+        static const char *fl[] = { "u", "8", "^", "$", "E", "iu^$", "smx8E", "i?m" };
+        spif_regexp_t r = SPIF_REGEXP(x);
+        spif_regexp_set_flags(r, (spif_charptr_t)fl[ext % 8]);
+        spif_regexp_compile(r);
+        return 1;
+    }
+    default:
+        if (IS_LIST(k)) {
+            long n = (long)SPIF_LIST_COUNT(x);
+            switch (ext % 4) {
+            case 0: { spif_obj_t e = new_elem(how % 7); if (!SPIF_LIST_INSERT_AT(x, e, (spif_listidx_t)(n ? how % n : 0))) SPIF_OBJ_DEL(e); break; }                /* somewhere inside */
+            case 1: { spif_obj_t e = new_elem(how % 7); if (!SPIF_LIST_INSERT_AT(x, e, (spif_listidx_t)(-(1 + how % (n + 1))))) SPIF_OBJ_DEL(e); break; }      /* counted from the end */
+            case 2: { spif_obj_t e = SPIF_LIST_REMOVE_AT(x, (spif_listidx_t)(n ? how % n : 0)); if (e) SPIF_OBJ_DEL(e); break; }
+            default: { spif_obj_t e = SPIF_LIST_REMOVE_AT(x, (spif_listidx_t)(-(1 + how % (n + 1)))); if (e) SPIF_OBJ_DEL(e); (void)SPIF_LIST_GET(x, (spif_listidx_t)(-(1 + how % (n + 1)))); break; }
+            }
+            return 1;
+        }
+        return 0;
+    }
+}
+
 static void mutate(int slot, const op_t *o)
 {
     spif_obj_t x = obj[slot];
     int k = okind[slot];
     long how = o->a[1];
     char *t = cstr(o);
+    if (o->na > 3 && o->a[3] && mutate_ext(x, k, how, o->a[3], t, o)) { sim_free(t); probe_hit("extended_mutator_2"); return; }
     switch (k) {
     case K_STR: {
         spif_str_t s = SPIF_STR(x);
@@ -463,16 +525,18 @@ static void query(int slot, const op_t *o)
     spif_str_t sh;
     switch (k) {
     case K_STR: {
-        spif_str_t s = SPIF_STR(x), sub = spif_str_substr(s, 0, 2);
-        spif_charptr_t p = spif_str_substr_to_ptr(s, -1, 1);
+        long qx = o->na > 2 ? o->a[2] : 0, L = SPIF_STR(x)->len;
+        spif_str_t s = SPIF_STR(x), sub = qx ? spif_str_substr(s, (spif_stridx_t)(-(1 + (L ? how % L : 0))), (spif_stridx_t)(-(qx % 3))) : spif_str_substr(s, 0, 2);
+        spif_charptr_t p = qx ? spif_str_substr_to_ptr(s, (spif_stridx_t)(L ? how % L : 0), (spif_stridx_t)(-(qx % 3))) : spif_str_substr_to_ptr(s, -1, 1);
         if (sub) spif_str_del(sub);
         if (p) LIB_FREE(p);
         spif_str_index(s, 'a'); spif_str_to_num(s, 10);
         break;
     }
     case K_MBUFF: {
-        spif_mbuff_t m = SPIF_MBUFF(x), sub = spif_mbuff_subbuff(m, 0, 1);
-        spif_byteptr_t p = spif_mbuff_subbuff_to_ptr(m, 0, 1);
+        long qx = o->na > 2 ? o->a[2] : 0, L = SPIF_MBUFF(x)->len;
+        spif_mbuff_t m = SPIF_MBUFF(x), sub = qx ? spif_mbuff_subbuff(m, (spif_memidx_t)(-(1 + (L ? how % L : 0))), (spif_memidx_t)(-(qx % 3))) : spif_mbuff_subbuff(m, 0, 1);
+        spif_byteptr_t p = qx ? spif_mbuff_subbuff_to_ptr(m, (spif_memidx_t)(-(1 + (L ? how % L : 0))), (spif_memidx_t)(-(qx % 3))) : spif_mbuff_subbuff_to_ptr(m, 0, 1);
         if (sub) spif_mbuff_del(sub);
         if (p) LIB_FREE(p);
         break;
@@ -482,7 +546,7 @@ static void query(int slot, const op_t *o)
             spif_obj_t pr = new_elem(how % 7);
             spif_obj_t *arr = SPIF_LIST_TO_ARRAY(x);
             spif_iterator_t it = SPIF_LIST_ITERATOR(x);
-            SPIF_LIST_FIND(x, pr); SPIF_LIST_INDEX(x, pr); SPIF_LIST_GET(x, (spif_listidx_t)(how % 4));
+            SPIF_LIST_FIND(x, pr); SPIF_LIST_INDEX(x, pr); SPIF_LIST_GET(x, (spif_listidx_t)(o->na > 2 && o->a[2] ? -(1 + how % 4) : how % 4));
             while (SPIF_ITERATOR_HAS_NEXT(it)) SPIF_ITERATOR_NEXT(it);
             SPIF_ITERATOR_DEL(it);
             if (arr) LIB_FREE(arr);
@@ -577,6 +641,11 @@ static void exec_common(const plan_t *p)
     size_t base_live;
     memset(obj, 0, sizeof(obj));
     strelems = (int)plan_get(p, "strelems", 0);
+    if (plan_get(p, "ns", 0)) {
+        /* a name service that knows the words the URL texts use: the parser then allocates a port of its own */
+        simns_add_proto("tcp", 6); simns_add_proto("udp", 17);
+        simns_add_serv("http", "tcp", 80); simns_add_serv("mailto", "udp", 25); simns_add_serv("proto", "sctp", 7); simns_add_serv("a", "tcp", 65535);
+    }
     vobj_reset();
     base_serial = sa_serial(); base_live = sa_live_count();
     memset(held, 0, sizeof(held)); memset(slot_stamp, 0, sizeof(slot_stamp));
@@ -702,7 +771,7 @@ static void exec_c06(const plan_t *p) { mode_c05 = 0; exec_common(p); }
 static const char *texts[] = { "", "a", "abc", "  padded  ", "Hello World", "x=1 y=2", "a+b*", "^ab.c$", "[0-9]+", "one two 'three four' five",
     "http://user:pw@host.example:8080/path/to?q=1", "mailto:foo@bar.com?Subject=Hi", "/just/a/path", "proto:rest", "a:b:c::d", "UPPER lower",
     "a(b", "[z-a]", "*x", "(?<n>a)|b{2,1}", "say \"hi there\" now", "it's open", "back\\slash\\ x", "tab\tsep\tx", "a,b;c", "   ", "\"\"", "user@host:99?x", "//h/p?q#f", ":::", "@", "?",
-    "ends in escape\\", "\\", "a,b\\", "open quote at end '", "x \\\"", "sep at end,", "\\,", "'" };
+    "ends in escape\\", "\\", "a,b\\", "open quote at end '", "x \\\"", "sep at end,", "\\,", "'", "line one\nline two", "\nstarts with a newline", "ends with a newline\n", "es\\cape in\\ side", "'q\\'uoted' \"d\\\"q\"", "http://host.example/", "a://b" };
 static void gen_common(plan_t *p, rng_t *r, int c05)
 {
     int nops = rng_range(r, 4, (c05 ? 30 : 60) * sim_tier_scale()), kinds[NSLOT], ex[NSLOT] = { 0 }, focus = (int)rng_below(r, K_NKINDS);
@@ -712,6 +781,7 @@ static void gen_common(plan_t *p, rng_t *r, int c05)
     plan_knob(p, "alloc.reuse", rng_range(r, 0, 2));
     plan_knob(p, "alloc.place", rng_chance(r, 1, 4));
     plan_knob(p, "iters_last", rng_chance(r, 1, 2));
+    plan_knob(p, "ns", rng_chance(r, 1, 3));
     for (int i = 0; i < nops; i++) {
         int s = (int)rng_below(r, NSLOT), k = (int)rng_below(r, 100);
         op_t *o;
@@ -741,11 +811,12 @@ static void gen_common(plan_t *p, rng_t *r, int c05)
         if (k < 35) {
             const char *t = texts[rng_below(r, sizeof(texts) / sizeof(texts[0]))];
             if (rng_chance(r, 1, 4)) o = plan_op(p, 0, "mut", 3, (long)s, (long)rng_below(r, 1000), (long)rng_range(r, 1, kinds[s] == K_URL ? 9 : kinds[s] == K_TOK ? 6 : IS_MAP(kinds[s]) ? 11 : 8));
+            else if (rng_chance(r, 1, 4)) o = plan_op(p, 0, "mut", 4, (long)s, (long)rng_below(r, 1000), 0L, (long)rng_range(r, 1, 8));
             else o = plan_op(p, 0, "mut", 2, (long)s, (long)rng_below(r, 1000));
             if (kinds[s] == K_MBUFF && rng_chance(r, 1, 3)) { static const char bin[] = "a\0b\xff\x80\0\0z"; op_str(o, bin, 1 + rng_below(r, 8)); }       /* bytes a C string cannot hold */
             else op_str(o, t, strlen(t));
         }
-        else if (k < 50) plan_op(p, 0, "query", 2, (long)s, (long)rng_below(r, 1000));
+        else if (k < 50) { if (rng_chance(r, 1, 3)) plan_op(p, 0, "query", 3, (long)s, (long)rng_below(r, 1000), (long)rng_range(r, 1, 6)); else plan_op(p, 0, "query", 2, (long)s, (long)rng_below(r, 1000)); }
         else if (k < 72) { int d = (int)rng_below(r, NSLOT); if (!ex[d]) { plan_op(p, 0, "dup", 2, (long)s, (long)d); ex[d] = 1; kinds[d] = kinds[s]; } }
         else if (k < 80) plan_op(p, 0, "donereinit", 2, (long)s, (long)rng_below(r, 1000));
         else if (k < 82) { int w = (int)rng_below(r, 3); plan_op(p, 0, w == 0 ? "it_new" : w == 1 ? "it_next" : "it_del", 2, (long)s, (long)rng_below(r, 2)); }
